@@ -9,7 +9,7 @@ re-tagging of the tagger's own output.
 import os
 import io
 import contextlib
-from collections import defaultdict
+from collections import defaultdict, Counter
 from vlib.common import Acc, rng, Scratch
 from vlib import tagger as T
 from vlib.sim import frags as F
@@ -172,6 +172,13 @@ def run_case(case):
     obs = WriteTagsObserver(acc)
     wit = {'config': cfg, 'truth_head': [(t['id'], t['key']) for t in list(truths.values())[:12]]}
 
+    class_size = Counter(t['key'] for t in truths.values() if t.get('key'))
+
+    def is_overflow(ids):
+        # a surplus copy of a capped molecule, recognised by what it is (the wording of its rejection reason is the tool's business): a
+        # molecule of one fragment whose true molecule has more copies than the cap allows
+        return bool(cap) and len(ids) == 1 and class_size.get(truths[ids[0]].get('key'), 0) > cap
+
     def check_partition(groups, label, overflow_ids):
         """groups: list of lists of ids (molecules of valid fragments)"""
         acc.evals += 1
@@ -246,7 +253,7 @@ def run_case(case):
                     acc.count('tags:molecules_checked')
                     r1 = [x for x in m.fragments[0] if x is not None][0]
                     rr = r1.get_tag('RR') if r1.has_tag('RR') else ''
-                    if 'overflow' in rr:
+                    if 'overflow' in rr or is_overflow(ids):
                         overflow_ids.update(ids)
                         acc.count('cap:overflow_molecules')
                         if len(ids) != 1:
@@ -282,7 +289,7 @@ def run_case(case):
             for mech, desc in obs.bad[:6]:
                 acc.violate(mech, f'cli write_tags post-condition: {mech} on molecule {desc} ({cfg})', dict(wit, molecule=desc))
             obs.bad.clear()
-            g1 = check_tagged_bam(acc, out1, truths, cfg, wit, 'cli', check_partition, cap)
+            g1 = check_tagged_bam(acc, out1, truths, cfg, wit, 'cli', check_partition, cap, is_overflow)
             out2 = os.path.join(dd, 'retagged.bam')
             cmd2 = [out1, '-o', out2, '-method', method, '-umi_hamming_distance', str(d)]
             if method == 'chic' and radius:
@@ -292,7 +299,7 @@ def run_case(case):
             with contextlib.redirect_stdout(io.StringIO()), contextlib.redirect_stderr(io.StringIO()), T.instrumented(eject_every=eject_every):
                 run_multiome_tagging_cmd(cmd2)
             acc.count('history:retagged')
-            g2 = check_tagged_bam(acc, out2, truths, cfg, wit, 'retag', check_partition, cap)
+            g2 = check_tagged_bam(acc, out2, truths, cfg, wit, 'retag', check_partition, cap, is_overflow)
             # greedy clustering with hamming>0 / radius>0 depends on arrival order (ties are re-ordered by the sort): only exact mode must be idempotent
             if g1 is not None and g2 is not None and not cap and d == 0 and radius == 0 and set(map(frozenset, g1)) != set(map(frozenset, g2)):
                 acc.violate('retagging-changes-partition', f're-tagging the tagged BAM changed the partition ({cfg})', wit)
@@ -311,7 +318,7 @@ def run_case(case):
     return acc
 
 
-def check_tagged_bam(acc, path, truths, cfg, wit, label, check_partition, cap):
+def check_tagged_bam(acc, path, truths, cfg, wit, label, check_partition, cap, is_overflow=None):
     import pysam
     by_mi = defaultdict(list)
     with pysam.AlignmentFile(path) as f:
@@ -351,7 +358,7 @@ def check_tagged_bam(acc, path, truths, cfg, wit, label, check_partition, cap):
                         f'(input duplicate bits: {[truths[i].get("dup_flag") for i in sorted(ids)[:6]]}) ({cfg})', wit)
         if sorted(set(x for x in ranks if x is not None)) != list(range(n)) or None in ranks:
             acc.violate('RC-not-a-permutation', f'{label}: molecule {mi} ranks {sorted(set(ranks), key=str)} for {n} fragments ({cfg})', wit)
-        if 'overflow' in rr:
+        if 'overflow' in rr or (is_overflow is not None and is_overflow(ids)):
             overflow_ids.update(ids)
             continue
         if all(not truths[i]['valid'] for i in ids):
